@@ -615,6 +615,41 @@ func vpHistory(t *testing.T, penc, eenc *json.Encoder, hist int, rng *rand.Rand,
 					}
 				}
 			}
+			// before the block itself: the same block with one more, invalid, transaction (signed by the publisher key)
+			// is offered to the arbitrating publisher and to the follower; either must refuse it without any change
+			if rng.Intn(2) == 0 && len(free) > 0 {
+				type extra struct{ mut, kind string }
+				ex := []extra{{"arb-coins-created", "coins-created"}, {"arb-hours-created", "hours-over"}, {"arb-txn-badsig", "bad-sig"},
+					{"arb-unknown-input", "unknown-input"}, {"arb-double-spend-in-block", "normal"}}[rng.Intn(5)]
+				in := []coin.UxOut{free[rng.Intn(len(free))]}
+				if ex.mut == "arb-double-spend-in-block" && len(uxIn) > 0 {
+					in = []coin.UxOut{uxIn[rng.Intn(len(uxIn))]}
+				}
+				if _, ok := keyOf[in[0].Body.Address]; ok {
+					if bad, ok := mk(P, ex.kind, in, crt.BurnFactor); ok {
+						txs := append(coin.Transactions{}, sb.Body.Transactions...)
+						at := rng.Intn(len(txs) + 1)
+						txs = append(txs[:at], append(coin.Transactions{bad}, txs[at:]...)...)
+						clash := false
+						for _, txn := range sb.Body.Transactions {
+							for _, i2 := range txn.In {
+								if i2 == in[0].Hash() && ex.mut != "arb-double-spend-in-block" {
+									clash = true
+								}
+							}
+						}
+						if !clash {
+							hp := P.head(t)
+							if hb, err := coin.NewBlock(hp.Block, now, sb.Head.UxHash, txs, vlZeroFee); err == nil {
+								msb := sign(*hb, sec)
+								if offer(P, ex.mut, msb) || offer(F, ex.mut, msb) {
+									return
+								}
+							}
+						}
+					}
+				}
+			}
 			okF := offer(F, "created", sb)
 			okP := offer(P, "created-pub", sb)
 			if !okF || !okP {
